@@ -281,7 +281,7 @@ def bits(n):
     return list(itertools.product((0, 1), repeat=n))
 
 
-def local_tasks(oracles, ns=(1, 2, 3), exits=False, flags=False):
+def local_tasks(oracles, ns=(1, 2, 3), exits=False, flags=False, stutter=1):
     tasks = []
     for n in ns:
         for gi, bb in enumerate(S.dags(n)):
@@ -295,7 +295,7 @@ def local_tasks(oracles, ns=(1, 2, 3), exits=False, flags=False):
                             for i, b in zip(blocked, fl):
                                 cancel[i] = b
                         sc = mk_scen(bb, dict(nproc=nproc), exit_codes=ec, cancel=cancel, mode="local",
-                                     actors=[])
+                                     actors=[], stutter=stutter)
                         tasks.append(dict(id=f"local-g{n}.{gi}-q{nproc}-e{ec}-f{fl}", scen=sc,
                                           oracles=["Obs"] + oracles, budget=(0, 0), cls="local"))
     return tasks
@@ -402,7 +402,7 @@ def _c0304(prop, tier):
         tasks += user_round_tasks([prop], (1, 0), ["pair", "chain2"], params=[("sz1-mxN", dict(size=1, max_nodes=None))])
         tasks += user_round_tasks([prop], (0, 0), ["indep3", "fork"])
         tasks += rep_tasks([prop], (0, 0), graphs=["cancelfan7"], params=[("one-batch-q2", dict(size=7, nproc=2)), ("sz3-q2", dict(size=3, nproc=2))],
-                           exit_sets=lambda n: [(0, 1, 0, 0, 0, 0, 0)], cancel_sets=lambda n: [(0, 0, 1, 1, 1, 0, 0)])
+                           exit_sets=lambda n: [(0, 1, 0, 0, 0, 0, 0)], cancel_sets=lambda n: [(0, 0, 1, 1, 1, 0, 0)], stutter=1)
         bounds = ("G(1..3) x exit codes {0,1}^n x cancel flags on blocked jobs x 6 parameter sets (incl. two groups, max-nodes 1, local) "
                   "at budget 0 with all finish orders; 5 REP graphs x single failures x flags at 1 preemption with the recovery actor; a user-run try-submit-jobs at any point (1 preemption on 2-job graphs, budget 0 on 3-job graphs); a 7-job cancel fan-out in one batch")
     else:
@@ -482,6 +482,9 @@ def c06(tier):
                                                                        ("sz4-q2-mx1", dict(size=4, nproc=2, max_nodes=1))], **fan)
     t = rep_tasks(["C06"], (0, 0), graphs=["cancelfan7"], params=[("local-q2", dict(nproc=2))], mode="local", actors=[], **fan)
     tasks += t
+    for t in tasks:
+        if "cancelfan7" in t["id"]:
+            t["scen"]["stutter"] = 2  # up to two polls per process at which nothing finishes
     tasks += rep_tasks(["C06"], (0, 0) if tier == "quick" else (1, 0), graphs=["chain3", "fork", "diamond", "wide5"],
                        params=[("sz3-q2-mx1", dict(size=3, nproc=2, max_nodes=1)), ("sz2-q1-mx2", dict(size=2, nproc=1, max_nodes=2))],
                        exit_sets=fail_sets, cancel_sets=lambda n: [(1,) * n])
@@ -497,7 +500,7 @@ def c06(tier):
         t["fault"] = dict(plan="c11", kinds=["squeue"])
         t["id"] += "-squeue-fault"
         tasks.append(t)
-    bounds = f"REP graphs x max-nodes {{1,2}} x processes {{1,2,unset/2 CPUs}} x batch sizes 1-3 at {b[0]} preemption(s); G(3) grid; local mode; failures + cancel flags (incl. a 7-job cancel fan-out in one queue); two groups with different process limits; one failing status query (squeue down for a whole round)"
+    bounds = f"REP graphs x max-nodes {{1,2}} x processes {{1,2,unset/2 CPUs}} x batch sizes 1-3 at {b[0]} preemption(s); G(3) grid; local mode; failures + cancel flags (incl. a 7-job cancel fan-out in one queue, with up to 2 polls at which nothing finishes); two groups with different process limits; one failing status query (squeue down for a whole round)"
     return explore_check("C06", tier, tasks, S_RULE, COMMON_ASSUMPTIONS, dict(bounds=bounds))
 
 
